@@ -139,13 +139,18 @@ def run(ctx):
     for k, c in enumerate(rejected):
         body = core.FLAT_HEADER.replace("Sem Types", "Sem Types Search")
         body += f"Eval vm_compute in [{c['term2']}].\n"
-        body += f"Eval vm_compute in (type_search {core.flat_coq(c['flat'])} {core.types_coq(c['flat']['types'])} {depth}).\n"
+        sfiles.append((f"a05_{k}", body))
+        vs = sorted({a["var"] for a in c["flat"]["init"] + c["flat"]["body"]})
+        vl = P.lst(['"%s"' % v for v in vs])
+        body = core.FLAT_HEADER.replace("Sem Types", "Sem Types Search")
+        body += f"Eval vm_compute in (type_search {vl} {core.flat_coq(c['flat'])} {core.types_coq(c['flat']['types'])} {depth}).\n"
         sfiles.append((f"s05_{k}", body))
-    souts = lib.coq_run_many(ctx, sfiles, timeout=300)
+    souts = lib.coq_run_many(ctx, sfiles, timeout=120)
     for k, c in enumerate(rejected):
         okc, o = souts[f"s05_{k}"]
+        oka, oa = souts[f"a05_{k}"]
         rows = parse_search(o) if okc else None
-        bl2 = lib.parse_bool_list(o) if okc else None
+        bl2 = lib.parse_bool_list(oa) if oka else None
         at_known_site = bool(bl2 and bl2[0])
         wit = None
         if rows:
